@@ -193,9 +193,9 @@ func c05BatchToks(b []map[string]interface{}) []string {
 func c05AsyncRun(sql string, rows []map[string]interface{}, want int, nSinks int, chanCap int, read bool) (sinkLog [][]string, chanLog [][]string, err error) {
 	var s *streamsql.Streamsql
 	if chanCap > 0 {
-		s = streamsql.New(streamsql.WithDiscardLog(), streamsql.WithBufferSizes(1000, chanCap, 50))
+		s = streamsql.New(presetOpt(), streamsql.WithDiscardLog(), streamsql.WithBufferSizes(1000, chanCap, 50))
 	} else {
-		s = streamsql.New(streamsql.WithDiscardLog())
+		s = streamsql.New(presetOpt(), streamsql.WithDiscardLog())
 	}
 	defer s.Stop()
 	if err = s.Execute(sql); err != nil {
@@ -288,7 +288,7 @@ func (c05) Exec(c Case) [][][]string {
 	sql := c05BuildSQL(items, w)
 	if w != nil && c04CfgVal(c, "wherefn", "0") == "1" {
 		// some query has been compiled in this process before the function exists (also when the case is replayed alone)
-		pre := streamsql.New(streamsql.WithDiscardLog())
+		pre := streamsql.New(presetOpt(), streamsql.WithDiscardLog())
 		_ = pre.Execute("SELECT a FROM stream WHERE abs(a) >= 0")
 		pre.Stop()
 		c05FnSeq++
@@ -303,7 +303,7 @@ func (c05) Exec(c Case) [][][]string {
 		}
 		sql = s + strings.Join(parts, ", ") + " FROM stream WHERE " + name + "(" + strings.Join(w.col, ".") + ") " + w.op + " " + c05LitSQL(w.lit)
 	}
-	hist := streamsql.New(streamsql.WithDiscardLog())
+	hist := streamsql.New(presetOpt(), streamsql.WithDiscardLog())
 	defer hist.Stop()
 	execErr := hist.Execute(sql)
 	// the instance that answers through EmitSync has one synchronous sink and no other: what the sink is handed during
@@ -338,7 +338,7 @@ func (c05) Exec(c Case) [][][]string {
 			} else if len(histSink) > 0 {
 				ss = []string{"ssink", "odd", strconv.Itoa(len(histSink))}
 			}
-			fresh := streamsql.New(streamsql.WithDiscardLog())
+			fresh := streamsql.New(presetOpt(), streamsql.WithDiscardLog())
 			var r2 []string
 			if err := fresh.Execute(sql); err != nil {
 				r2 = []string{"execerr"}
@@ -363,7 +363,7 @@ func (c05) Exec(c Case) [][][]string {
 			}
 			all = append(all, c05DecRow(rowToks))
 			// the sentinel closes the sequence only if it passes WHERE (it does by construction)
-			probe := streamsql.New(streamsql.WithDiscardLog())
+			probe := streamsql.New(presetOpt(), streamsql.WithDiscardLog())
 			if err := probe.Execute(sql); err == nil {
 				pr := c05SyncRes(probe, c05DecRow(rowToks))
 				probe.Stop()
